@@ -113,13 +113,16 @@ type Recorder struct {
 	FramesLogged int
 	FaultsLogged int
 	FramesSeen   int
-	Truncated    bool        // some step or frame of the current run was not logged
-	PanicOp      int         // opcode whose execute did not return (a panic unwound the frame), else -1
-	MaxMem       int         // largest memory length seen in the current run
-	LastRetLen   map[int]int // depth -> length of what the last frame that exited at that depth returned
-	Cancel       func()      // aborts the running EVM (EVM.Cancel); called once when HardSteps is exceeded
-	Cancelled    bool
-	boundSaid    bool
+	Truncated    bool // some step or frame of the current run was not logged
+	PanicOp      int  // opcode whose execute did not return (a panic unwound the frame), else -1
+	MaxMem       int  // largest memory length seen in the current run
+	SkipSteps    int  // Values mode: do not log the first SkipSteps completed steps of the outermost frame of this run; the
+	// SkipSteps-th is replaced by one Sync event carrying the complete observed state (set after BeginRun)
+	skipped    int
+	LastRetLen map[int]int // depth -> length of what the last frame that exited at that depth returned
+	Cancel     func()      // aborts the running EVM (EVM.Cancel); called once when HardSteps is exceeded
+	Cancelled  bool
+	boundSaid  bool
 	// statistics over the whole life of the recorder
 	OpCount    map[int]int
 	FaultCount map[string]int
@@ -144,6 +147,7 @@ func (r *Recorder) BeginRun(id int) {
 	r.FramesLogged, r.FramesSeen, r.Truncated, r.FaultsLogged = 0, 0, false, 0
 	r.PanicOp = -1
 	r.Cancelled, r.boundSaid = false, false
+	r.SkipSteps, r.skipped = 0, 0
 	r.MaxMem = 0
 	r.LastStack, r.LastMem = [][]int{}, nil
 }
@@ -310,6 +314,15 @@ func (r *Recorder) flush(fr *frame, npc int, exitErr error, ret []byte, gasNow u
 		fr.lastGas = p.g2
 	} else {
 		fr.lastGas = gasNow
+	}
+	if p.done && p.err == nil && r.Opt.Values && fr.depth == 1 && r.skipped < r.SkipSteps {
+		// the prefix of the run that is not recorded step by step
+		r.skipped++
+		if r.skipped == r.SkipSteps {
+			r.T.Emit(map[string]interface{}{"event": "Sync", "run": r.Run, "depth": 1, "skipped": r.skipped, "npc": npc,
+				"stack": p.stack, "mem": ByteInts(p.mem), "rd": ByteInts(p.rd)})
+		}
+		return
 	}
 	if p.done && p.err == nil {
 		// completed steps that will not be logged: decide before building the event
